@@ -59,6 +59,15 @@ TrMerge ==
     /\ Ev.v = Len(vers')
     /\ UNCHANGED <<K, PG, SF, its>>
 
+\* the tree header (root, levels) written with Write and read back with Read: same content
+TrReopen ==
+    /\ IsEvent("Reopen")
+    /\ Ev.ok = 1
+    /\ Ev.from \in 1..Len(vers)
+    /\ vers' = Append(vers, vers[Ev.from])
+    /\ Ev.v = Len(vers')
+    /\ UNCHANGED <<K, PG, SF, its>>
+
 \* full observation of one version: Lookup of the whole universe, forward and backward
 \* iteration (keys and offsets), Check() (count; -1 = it panicked), tree levels < 8
 TrState ==
@@ -135,7 +144,7 @@ TrFrac ==
 \* informational lines (scenario descriptions, skipped scenarios)
 TrNote == /\ IsEvent("Note") /\ UNCHANGED <<K, PG, SF, vers, its>>
 
-TraceNext == TrReset \/ TrScn \/ TrBuild \/ TrMerge \/ TrState \/ TrChkKeys \/ TrItNew \/ TrItOp
+TraceNext == TrReset \/ TrScn \/ TrBuild \/ TrMerge \/ TrReopen \/ TrState \/ TrChkKeys \/ TrItNew \/ TrItOp
              \/ TrFrac \/ TrNote
 
 TraceSpec == TraceInit /\ [][TraceNext]_tvars
